@@ -230,6 +230,8 @@ def gen_plan(run_seed, tier="quick", profile="driver", focus=None):
   r = random.Random(run_seed)
   if profile == "e2e":
     return _gen_e2e(r, tier)
+  if profile == "faultsweep":
+    return _gen_faultsweep(r, tier)
   ops = []
   for _ in range(r.randint(1, 4)):
     fail, repeat = _level_pair(r)
@@ -752,6 +754,35 @@ def _gen_e2e(r, tier):
     ops.insert(0, dict(op, seeds=seeds()))
   return {"engine": "C", "property": PROPERTY, "profile": "e2e",
           "clock_seed": r.getrandbits(32), "ops": ops}
+
+
+SWEEP_PREFIXES = ["LargeBinaryMatrixRank", "Frequency", "Runs", "LongestRuns",
+                  "BinaryMatrixRank", "Serial", "ApproximateEntropy",
+                  "RandomWalk", "LinearComplexityScatter", "Universal",
+                  "Spectral", "NonOverlapping", "Overlapping", "BlockFrequency"]
+
+
+def _gen_faultsweep(r, tier):
+  """Fault enumeration at function-entry granularity for cheap suite calls:
+  the call dies of a MemoryError at its k-th library function entry, the
+  caller carries on, the same kind of call on fresh bits must behave."""
+  prefix = r.choice(SWEEP_PREFIXES)
+  k = r.choice([r.randrange(0, 64), r.randrange(0, 400),
+                int(2 ** (r.random() * 12))])
+  gen = r.choice(GOOD)
+  n = r.choice([2**20, 2**20, 2**21])
+  seeds = lambda: [r.getrandbits(40) | 1 for _ in range(8)]
+  entry = r.choice(["source", "bitstring"])
+  ops = [{"op": "free", "gen": gen, "prefix": prefix, "n": n, "entry": entry,
+          "seeds": seeds(), "call_fail": k},
+         {"op": "good", "gen": gen, "prefix": prefix, "n": n,
+          "entry": r.choice(["source", "bitstring"]), "seeds": seeds()}]
+  if r.random() < 0.3:
+    ops.append({"op": "good", "gen": r.choice(GOOD), "prefix": prefix, "n": n,
+                "entry": entry, "seeds": seeds()})
+  return {"engine": "C", "property": PROPERTY, "profile": "e2e",
+          "sub_profile": "faultsweep", "clock_seed": r.getrandbits(32),
+          "ops": ops}
 
 
 def _subject_e2e(plan):
